@@ -36,7 +36,7 @@ CHECK = _C15(
     nontrivial=nontrivial,
     deciding=["oracle.C15.roundtrip"],
     profile=("stage", "table"),
-    classes=[(c, max(50, q // 3), max(500, t // 5), p) for c, q, t, p in GEN_CLASSES],
+    classes=[(c, max(50, q // 5), max(500, t // 5), p) for c, q, t, p in GEN_CLASSES],
     use_byteflow=True,
     extra_assumptions=["graphs with AST statement payloads are outside the statement's "
                        "enumeration (regions, synthetic assignment/branching blocks, bytecode blocks)"],
@@ -47,7 +47,19 @@ _orig_plan = CHECK.plan
 
 
 def _plan(tier, seed):
-    return [s for s in _orig_plan(tier, seed) if s["kind"] != "realast"]
+    out = []
+    for s in _orig_plan(tier, seed):
+        if s["kind"] == "realast":
+            continue
+        if tier == "quick":
+            # YAML parsing dominates the cost: thin out the bulk classes
+            if s["kind"] == "exh" and s["n"] == 5:
+                s["stride"] = 40
+                s["offset"] = seed % 40
+            if s["kind"] == "realbc":
+                s["limit_files"] = 80
+        out.append(s)
+    return out
 
 
 CHECK.plan = _plan
